@@ -14,6 +14,7 @@
    Wavelength coefficients are integers in units of 2^-20 (the harness uses dyadic COEFF0/COEFF1,
    so that the double arithmetic c0 + c1*pixel of the code is exact). *)
 From Coq Require Import ZArith List Bool Arith.
+From PV Require Import Lib.NumpyInt C16.Typed.   (* storage types: only for the CTyped correspondence case *)
 Import ListNotations.
 Open Scope Z_scope.
 
@@ -327,10 +328,10 @@ Definition request_vectors_all (sv : survey) (pl : list plrow) (r2 r1 : Z) (plat
   end.
 
 Definition readspec_model_all (sv : survey) (pl : list plrow) (r2 r1 : Z) (plate : arg) (mjd : option arg)
-  : option (list img) :=
+  (znum : option Z) : option (list img) :=
   match request_vectors_all sv pl r2 r1 plate mjd with
   | None => None
-  | Some reqs => sequenceM (map (fun w => readspec_core sv w reqs) (outputs sv reqs None))
+  | Some reqs => sequenceM (map (fun w => readspec_core sv w reqs) (outputs sv reqs znum))
   end.
 
 (* ------------------------------------------------------------------ spec_path and file names (M) *)
@@ -396,6 +397,25 @@ Definition mount (trees : list tree) : list (list bytes * file) :=
 
 (* ------------------------------------------------------------------ correspondence cases *)
 
+(* a table column given by a formula of (fibre, fit number), nper rows per fibre: the spZall tables of the
+   realistic-size trees (1000 fibres x 134 fits) are written by the harness from the same formula *)
+Fixpoint zseq (start : Z) (n : nat) : list Z := match n with O => [] | S k => start :: zseq (start + 1) k end.
+Definition gen_col (nfib nper : nat) (g : Z -> Z -> Z) : img :=
+  flat_map (fun f => map (fun z => [g f z]) (zseq 1 nper)) (zseq 1 nfib).
+(* an image / table column with one row per fibre given by a formula of (fibre, pixel or component) *)
+Definition gen_img (nfib npix : nat) (g : Z -> Z -> Z) : img :=
+  map (fun f => map (fun p => g f p) (zseq 0 npix)) (zseq 1 nfib).
+
+Definition okind_eqb (a b : option ity) : bool :=
+  match a, b with Some x, Some y => ity_eqb x y | None, None => true | _, _ => false end.
+Definition pres_eqb (a b : pres) : bool :=
+  match a, b with
+  | PVal ka za, PVal kb zb => okind_eqb ka kb && (za =? zb)
+  | POverflow, POverflow => true
+  | PUnmodelled, PUnmodelled => true
+  | _, _ => false
+  end.
+
 Definition eqb_listZ (a b : list Z) : bool :=
   Nat.eqb (length a) (length b) && forallb (fun p => fst p =? snd p) (combine a b).
 Definition eqb_img (a b : img) : bool :=
@@ -428,13 +448,16 @@ Inductive case :=
 | CRead (sv : survey) (plate : arg) (mjd : option arg) (fiber : arg) (znum : option Z)
         (reqs : option (list req)) (expect : option (list img))
   (* readspec(plate, mjd, fiber=None): all fibres; platelist rows and the codes of the call's RUN2D / RUN1D *)
-| CReadAll (sv : survey) (pl : list plrow) (r2 r1 : Z) (plate : arg) (mjd : option arg)
+| CReadAll (sv : survey) (pl : list plrow) (r2 r1 : Z) (plate : arg) (mjd : option arg) (znum : option Z)
            (reqs : option (list req)) (expect : option (list img))
   (* spec_path(plates, path, topdir, run2d) under an environment: directories as lists of path components *)
 | CSpecPath (path topdir : option bytes) (env : envt) (run2d : bytes) (plates : list Z) (expect : option (list img))
   (* the spPlate files one readspec call opened (observed by wrapping fits.open), as lists of path components *)
 | CFiles (path topdir : option bytes) (env : envt) (run2d : bytes) (reqs : list req) (expect : option (list img))
-| CAppend (a b : img) (pixshift : Z) (expect : option img).
+| CAppend (a b : img) (pixshift : Z) (expect : option img)
+  (* one typed index expression of readspec (the gen_t definitions of Generated.Readspec) evaluated by NumPy itself on one-element arrays of
+     the stated storage types: value and dtype of the result, or OverflowError *)
+| CTyped (e : pexpr) (env : list (option ity * Z)) (expect : pres).
 
 (* verdict: 0 = model = impl and spec satisfied; +1 model differs from impl; +2 impl contradicts the spec *)
 Definition run_case (c : case) : Z :=
@@ -450,12 +473,12 @@ Definition run_case (c : case) : Z :=
                      end
         end in
       (if eqb_oimgs m expect then 0 else 1) + (if spec_bad then 2 else 0)
-  | CReadAll sv pl r2 r1 plate mjd reqs expect =>
-      let m := readspec_model_all sv pl r2 r1 plate mjd in
+  | CReadAll sv pl r2 r1 plate mjd znum reqs expect =>
+      let m := readspec_model_all sv pl r2 r1 plate mjd znum in
       let spec_bad :=
         match reqs with
         | None => false
-        | Some rq => match readspec_S sv rq None with
+        | Some rq => match readspec_S sv rq znum with
                      | None => false
                      | Some s => negb (eqb_oimgs (Some s) expect)
                      end
@@ -468,6 +491,11 @@ Definition run_case (c : case) : Z :=
   | CAppend a b s expect =>
       (if eqb_oimg (Some (spec_append a b s)) expect then 0 else 1) +
       (if eqb_oimg (Some (spec_append_S a b s)) expect then 0 else 2)
+  | CTyped e env expect =>
+      match peval env e with
+      | PUnmodelled => 0                       (* mixed array types: NumPy promotion is not modelled, no claim *)
+      | r => if pres_eqb r expect then 0 else 1
+      end
   end.
 
 Definition run_cases (l : list case) : list Z := map run_case l.
